@@ -629,6 +629,10 @@ func (c *Client) proposalParent(prop ChannelProposal, partIdx channel.Index) (pa
 	case *SubChannelProposalMsg:
 		parentChannelID = &prop.Parent
 	case *VirtualChannelProposalMsg:
+		if int(partIdx) >= len(prop.Parents) {
+			err = errors.New("parent channel index out of range")
+			return
+		}
 		parentChannelID = &prop.Parents[partIdx]
 	}
 
